@@ -34,6 +34,7 @@ func (q *Query) Pet() interface{}   { return q.C }
 func (q *Query) Stray() interface{} { return q.D }
 func (q *Query) Any() interface{}   { return q.C }
 func (q *Query) Any2() interface{}  { return q.D }
+func (q *Query) Odd() interface{}   { return &Other{X: 1} }
 
 type Dog struct{ Name string }
 
